@@ -314,16 +314,12 @@ pub fn run_check(check: &dyn Check, opts: &Options) -> i32 {
     let scratch = std::env::temp_dir().join(format!("nsim-{}-{}", id, std::process::id()));
     let _ = std::fs::create_dir_all(&scratch);
 
+    // The cases are cut into more slices than there are worker processes (slice j = cases with
+    // idx % n_slices == j) and at most n_workers slices run at a time: one expensive case then
+    // delays only its own small slice.  Which slice runs when has no influence on any result.
+    let n_slices = (n_workers * 6).min(n_cases.max(1));
+    let mut pending: std::collections::VecDeque<u64> = (0..n_slices).collect();
     let mut workers: Vec<Worker> = Vec::new();
-    for i in 0..n_workers {
-        match spawn_worker(id, opts, i, n_workers, 0, 0) {
-            Ok(w) => workers.push(w),
-            Err(e) => {
-                eprintln!("nsim: harness error: cannot spawn worker: {e}");
-                return 2;
-            }
-        }
-    }
 
     let mut total = Stats::default();
     let mut all_findings: Vec<(u64, Finding)> = Vec::new();
@@ -332,7 +328,17 @@ pub fn run_check(check: &dyn Check, opts: &Options) -> i32 {
     let mut hangs = 0u64;
     let watchdog = Duration::from_secs(check.watchdog_s());
 
-    while !workers.is_empty() {
+    while !workers.is_empty() || !pending.is_empty() {
+        while (workers.len() as u64) < n_workers {
+            let Some(j) = pending.pop_front() else { break };
+            match spawn_worker(id, opts, j, n_slices, 0, 0) {
+                Ok(w) => workers.push(w),
+                Err(e) => {
+                    eprintln!("nsim: harness error: cannot spawn worker: {e}");
+                    return 2;
+                }
+            }
+        }
         let mut i = 0;
         let mut progressed = false;
         while i < workers.len() {
@@ -413,7 +419,7 @@ pub fn run_check(check: &dyn Check, opts: &Options) -> i32 {
                 let (from, skip) = if check.announce() && v.subs_seen > 0 && !hang {
                     (idx, v.subs_seen)
                 } else {
-                    (idx + n_workers, 0)
+                    (idx + n_slices, 0)
                 };
                 if hang {
                     hangs += 1;
@@ -426,7 +432,7 @@ pub fn run_check(check: &dyn Check, opts: &Options) -> i32 {
                     harness_errors.push("more than 5000 worker deaths; giving up resuming".into());
                     continue;
                 }
-                match spawn_worker(id, opts, w.slice_index, n_workers, from, skip) {
+                match spawn_worker(id, opts, w.slice_index, n_slices, from, skip) {
                     Ok(nw) => workers.push(nw),
                     Err(e) => harness_errors.push(format!("cannot respawn worker: {e}")),
                 }
